@@ -229,3 +229,11 @@ Example roundtrip_example :
   = VL [VL [VN]; VL [VS ("x -inf y" ++ String nl "")]; VL [VL [VS "inf"; VB true]];
         VL [VL [VS "x"; VL [VS "inf"; VB true]; VS "y"]]].
 Proof. vm_compute. reflexivity. Qed.
+
+(* the "3e5" form with a leading sign: one float in the repaired grammar; as found, the int -2 and a word,
+   which also shifts every later field of the line *)
+Theorem mixed_exp_sign :
+  parse_line cfg_fixed " " "x -2e-05 y" = inr [TStr "x"; TFloat "-2E-05"; TStr "y"] /\
+  parse_line cfg_found " " "x -2e-05 y" = inr [TStr "x"; TInt (-2); TStr "e-05"; TStr "y"].
+Proof. split; vm_compute; reflexivity. Qed.
+
